@@ -1,6 +1,7 @@
 """C19 - simulation order derived from a flowsheet is complete and follows material flow."""
 import itertools
 import random
+import re
 
 from harness import tlc
 from harness.drivers import netorder as dn
@@ -69,15 +70,17 @@ def run(ctx):
             order = list(us)
             rng.shuffle(order)
             rec = dn.record(us, edges, feeds, products, order)
-            traces.append(dict(id='R%d' % len(traces), units=us, edges=edges, order=order, cyclic=is_cyclic(us, edges), **rec))
+            traces.append(dict(id='R%d' % len(traces), units=us, edges=edges, order=order, cyclic=is_cyclic(us, edges), feeds=feeds, products=products, **rec))
     stats = dict(steps=0, acyclic=0, cyclic=0, errors=0)
     by_units = {}
     for t in traces:
         if t['error']:
             stats['errors'] += 1
-            ctx.violation('NetworkOrder:%s:n=%d:from_units:exception' % ('cyclic' if t['cyclic'] else 'acyclic', len(t['units'])),
+            slug = re.sub(r'[^A-Za-z]+', '_', t['error'])[:60].strip('_')
+            back = sum(1 for u, v in t['edges'] if t['units'].index(u) >= t['units'].index(v))
+            ctx.violation('NetworkOrder:%s,back=%d:from_units:exception:%s' % ('cyclic' if t['cyclic'] else 'acyclic', back, slug),
                           'Network.from_units raised %s' % t['error'],
-                          dict(kind='trace', units=t['units'], edges=t['edges'], order=t['order']))
+                          dict(kind='trace', units=t['units'], edges=t['edges'], order=t['order'], feeds=t.get('feeds'), products=t.get('products')))
             continue
         by_units.setdefault(tuple(t['units']), []).append(t)
     n_tr = 0
@@ -112,6 +115,8 @@ def replay(ctx, data):
         return 1
     units, edges = rp['units'], [tuple(e) for e in rp['edges']]
     feeds, products = dn.complete(units, edges)
+    if rp.get('feeds'):
+        feeds, products = rp['feeds'], rp['products']
     rec = dn.record(units, edges, feeds, products, rp['order'])
     print('# path: %r' % [s['a'] for s in rec['steps']], rec['error'])
     if rec['error']:
